@@ -117,6 +117,12 @@ def _gen_history(rnd):
         if kind == "sharded":
             sc["sharding"] = shardlib.sharding_of(shard_cfg)
         scales.append(sc)
+    if nscales > 1 and enc != "raw" and rnd.random() < 0.5:
+        # encodings are a property of each scale: some scales of a jpeg / segmentation
+        # dataset are stored raw, listed in any order
+        for sc in rnd.sample(scales, rnd.randint(1, nscales - 1)):
+            sc["encoding"] = "raw"
+            sc.pop("compressed_segmentation_block_size", None)
     info = {"type": "image" if enc != "compressed_segmentation" else "segmentation",
             "data_type": dt, "num_channels": nch, "scales": scales}
     opts = {"flat": rnd.random() < 0.5, "gzip": rnd.random() < 0.6,
@@ -327,10 +333,11 @@ def run_case(case):
                               "detail": f"{ctx}: {type(exc).__name__}: {str(exc)[:160]}"})
                     break
                 continue
-            layout = rnd.choice(["C", "C", "F", "T", "slice", "BE"]) if enc != "jpeg" else \
+            sc_enc = sc["encoding"]
+            layout = rnd.choice(["C", "C", "F", "T", "slice", "BE"]) if sc_enc != "jpeg" else \
                 rnd.choice(["C", "C", "F"])
             m0, p0 = MAGIC_SEEN
-            arr = _array(np, rnd, info, coords, enc, layout)
+            arr = _array(np, rnd, info, coords, sc_enc, layout)
             obs["byte_sparse_label_palettes"] = obs.get(
                 "byte_sparse_label_palettes", 0) + MAGIC_SEEN[1] - p0
             obs["chunks_beginning_with_container_magic"] = obs.get(
@@ -405,6 +412,9 @@ def run_case(case):
             v.append({"kind": "dispatch-not-sharded", "detail": ctx})
         keys = list(model)
         rnd.shuffle(keys)
+        enc_of = {sc_["key"]: sc_["encoding"] for sc_ in info["scales"]}
+        if len(set(enc_of.values())) > 1:
+            obs["datasets_mixing_encodings_across_scales"] = 1
         for which, handle in (("same", pio), ("fresh", fresh)):
             for (key, coords) in keys:
                 want = model[(key, coords)]
@@ -422,7 +432,19 @@ def run_case(case):
                               "detail": f"{ctx}: {which} handle, {key} {coords}: got "
                               f"{got.shape} {got.dtype}, wrote {want.shape} {want.dtype}"})
                     break
-                if enc == "jpeg":
+                if enc_of[key] == "raw" and which == "fresh":
+                    # what is STORED for a raw scale is the array itself (little-endian,
+                    # C order), whatever the other scales of the dataset use
+                    stored_bytes = bytes(fresh_acc.fetch_chunk(key, coords))
+                    obs["raw_chunks_compared_bytewise"] = obs.get(
+                        "raw_chunks_compared_bytewise", 0) + 1
+                    if stored_bytes != np.ascontiguousarray(want).astype(
+                            want.dtype.newbyteorder("<")).tobytes():
+                        v.append({"kind": "stored-bytes-of-a-raw-scale-are-not-the-raw-array",
+                                  "detail": f"{ctx}: {key} {coords}: {len(stored_bytes)} bytes "
+                                  f"stored for an array of {want.nbytes} bytes"})
+                        break
+                if enc_of[key] == "jpeg":
                     err = np.abs(got.astype(int) - want.astype(int))
                     obs["jpeg_max_err"] = max(obs["jpeg_max_err"], int(err.max()))
                     if err.max() > 40 or err.mean() > 5:
@@ -472,6 +494,8 @@ def gates(obs, tier):
         "chunks_beyond_2_20_voxels": obs.get("chunks_over_2_20_voxels", 0) > 0,
         "big_endian_input_arrays": obs.get("big_endian_arrays", 0) > 50,
         "byte_sparse_label_palettes": obs.get("byte_sparse_label_palettes", 0) > 50,
+        "datasets_mixing_encodings_across_scales": obs.get(
+            "datasets_mixing_encodings_across_scales", 0) > 20,
         "raw_chunks_beginning_with_container_magic": obs.get(
             "chunks_beginning_with_container_magic", 0) > 50,
     }
